@@ -105,6 +105,8 @@ pub struct TypeSpec {
 
 /// marker value of `TypeSpec::shared_arg`: every trait in its own stacked `#[derive_ex(..)]` attribute
 pub const STACKED: &str = "@stacked";
+/// like STACKED, every list after the first written `#[::derive_ex::derive_ex(..)]`
+pub const STACKED_QUALIFIED: &str = "@stacked-qualified";
 /// marker value of `TypeSpec::shared_arg`: the definition comes out of a `macro_rules!` macro and its helper
 /// attributes (with their key / by expressions) arrive as `meta` fragments of the macro call
 pub const VIA_MACRO: &str = "@macro";
@@ -386,12 +388,13 @@ pub fn expander_accepts(entry: Entry, derived: &[Tr], item: &str) -> Result<(), 
 pub fn program(ts: &TypeSpec, derived: &[Tr], entry: Entry) -> String {
     let item = ts.item();
     let list = match ts.shared_arg {
-        Some(a) if a != STACKED && a != VIA_MACRO => format!("{}, {}", names(derived).join(", "), a),
+        Some(a) if a != STACKED && a != VIA_MACRO && a != STACKED_QUALIFIED => format!("{}, {}", names(derived).join(", "), a),
         _ => names(derived).join(", "),
     };
     let head = match entry {
         // one `#[derive_ex(Trait)]` attribute per trait, stacked on the item
         Entry::Attr if ts.shared_arg == Some(STACKED) => names(derived).iter().map(|t| format!("#[derive_ex({t})]")).collect::<Vec<_>>().join("\n"),
+        Entry::Attr if ts.shared_arg == Some(STACKED_QUALIFIED) => names(derived).iter().enumerate().map(|(i, t)| if i == 0 { format!("#[derive_ex({t})]") } else { format!("#[::derive_ex::derive_ex({t})]") }).collect::<Vec<_>>().join("\n"),
         Entry::Attr => format!("#[derive_ex({list})]"),
         Entry::Derive => format!("#[derive(Ex)]\n#[derive_ex({list})]"),
     };
